@@ -83,7 +83,8 @@ func (b *exampleBuilder) buildExampleForObjectNode(node *ischema.ObjectNode) ([]
 		}
 	}
 	buf.WriteByte('}')
-	return buf.Bytes(), nil
+	// The buffer goes back to the pool: hand out a copy.
+	return append([]byte(nil), buf.Bytes()...), nil
 }
 
 func (b *exampleBuilder) buildObjectKey(k ischema.ObjectNodeKey) ([]byte, error) {
@@ -143,7 +144,8 @@ func (b *exampleBuilder) buildExampleForArrayNode(node *ischema.ArrayNode) ([]by
 		}
 	}
 	buf.WriteByte(']')
-	return buf.Bytes(), nil
+	// The buffer goes back to the pool: hand out a copy.
+	return append([]byte(nil), buf.Bytes()...), nil
 }
 
 func (b *exampleBuilder) buildExampleForMixedValueNode(node *ischema.MixedValueNode) ([]byte, error) {
@@ -228,7 +230,8 @@ func buildExampleForObjectNode(
 		}
 	}
 	b.WriteByte('}')
-	return b.Bytes(), nil
+	// The buffer goes back to the pool: hand out a copy.
+	return append([]byte(nil), b.Bytes()...), nil
 }
 
 func buildExampleForArrayNode(
@@ -256,7 +259,8 @@ func buildExampleForArrayNode(
 		}
 	}
 	b.WriteByte(']')
-	return b.Bytes(), nil
+	// The buffer goes back to the pool: hand out a copy.
+	return append([]byte(nil), b.Bytes()...), nil
 }
 
 var exampleBufferPool = sync.NewBufferPool(512)
